@@ -3,19 +3,20 @@ import FparserModel.One
 /-!
 # Properties of fparser1's block nesting (`nest1`), every depth, no bound
 
-* `fill_input`         — when no DO-terminating line was put back, `fill` consumes exactly the
-                          lines it returns: content (flattened, in print order) ++ rest = input.
-                          No line is dropped, duplicated or reordered by the nesting.
-* `nest1_print_stable` — C19 "same block structure": if `nest1` accepts `ls` without a shared
-                          DO label, the statement list printed from the tree is `ls` again, and
-                          nesting it again gives the same tree.  Also holds when END lines are
-                          missing at end of input (the real code only warns).
+* `fill_input`         — `fill` consumes exactly the lines it returns: content (flattened, in
+                          print order) ++ rest = input (a put-back line is part of rest).  No
+                          line is dropped, duplicated or reordered by the nesting.
+* `nest1_print_stable` — C19 "same block structure", UNCONDITIONAL: if `nest1` accepts `ls`, the
+                          statement list printed from the tree is `ls` again, and nesting it
+                          again gives the same tree and flag.  Holds with shared DO labels and
+                          when END lines are missing at end of input (the real code only warns).
+* `fill_fuel` / `nest1_fuel` — `nest1` never fails for lack of fuel.
 * `nest1_flatten`      — for every well-ended forest `t` (any depth / width), nesting the
                           flattened statement list gives back exactly `t`.
-* `shared_label_dup_witness` — the full statement without the side condition is FALSE for the
-                          real algorithm: `do 10 / do 10 / 10 continue` puts the terminal
-                          statement into both blocks, so the printed source has it twice
-                          (and three times after the next round trip): C19 defect.
+* `legacy_shared_label_dup_witness` — for the algorithm before the fix (`nest1Legacy`) the
+                          statement is FALSE: `do 10 / do 10 / 10 continue` put the terminal
+                          statement into both blocks, so the printed source had it twice
+                          (and three times after the next round trip).
 -/
 namespace Fp.One
 open Fp
@@ -27,53 +28,30 @@ theorem flatten_length (t : Forest) : (flatten t).length = t.size := by
   | if1 l nx ih => simp [flatten, Forest.size, ih]
   | blk l kids nx ih1 ih2 => simp [flatten, Forest.size, ih1, ih2]
 
-/-- No put-back ⇒ the block content followed by the unread lines is the input. -/
-theorem fill_input (f : Nat) : ∀ (c : Ctx) (ls : List Line) (t : Forest) (rest : List Line),
-    fill f c ls = .ok (t, rest, false) → flatten t ++ rest = ls := by
+/-- The block content followed by the unread lines (a put-back line included) is the input:
+    the nesting neither drops, duplicates nor reorders a line. -/
+theorem fill_input (f : Nat) : ∀ (c : Ctx) (ls : List Line) (t : Forest) (rest : List Line)
+    (s : Bool), fill f c ls = .ok (t, rest, s) → flatten t ++ rest = ls := by
   induction f with
-  | zero => intro c ls t rest h; simp [fill] at h
+  | zero => intro c ls t rest s h; simp [fill] at h
   | succ f ih =>
-    intro c ls t rest h
+    intro c ls t rest s h
     cases ls with
     | nil =>
       simp [fill] at h
-      obtain ⟨rfl, rfl⟩ := h
+      obtain ⟨rfl, rfl, _⟩ := h
       rfl
     | cons l ls =>
       simp only [fill] at h
-      by_cases hsh : shared c l = true
-      · -- a put-back always sets the flag
-        simp only [hsh, if_true] at h
-        split at h
-        · simp at h
-        · split at h
-          · split at h
-            · split at h
-              · simp at h
-              · rename_i kids rest1 s1 _
-                split at h
-                · simp at h
-                · split at h
-                  · simp at h
-                  · simp at h
-            · simp at h
-          · split at h
-            · split at h
-              · simp at h
-              · split at h <;> simp at h
-            · simp at h
-          · split at h
-            · split at h
-              · simp at h
-              · split at h <;> simp at h
-            · simp at h
-          · simp at h
-      · have hsh' : shared c l = false := by simpa using hsh
-        simp only [hsh', Bool.false_or, Bool.false_eq_true, if_false] at h
-        split at h
+      split at h
+      · -- shared label: the line is handed back
+        simp at h
+        obtain ⟨rfl, rfl, _⟩ := h
+        simp [flatten]
+      · split at h
         · -- valid END
           simp at h
-          obtain ⟨rfl, rfl⟩ := h
+          obtain ⟨rfl, rfl, _⟩ := h
           simp [flatten]
         · split at h
           · -- opener
@@ -83,45 +61,44 @@ theorem fill_input (f : Nat) : ∀ (c : Ctx) (ls : List Line) (t : Forest) (rest
               · rename_i kids rest1 s1 hk
                 split at h
                 · simp at h
-                  obtain ⟨rfl, rfl, rfl⟩ := h
-                  have := ih _ _ _ _ hk
+                  obtain ⟨rfl, rfl, _⟩ := h
+                  have := ih _ _ _ _ _ hk
                   simp [flatten, ← this]
                 · split at h
                   · simp at h
                   · rename_i nx rest2 s2 hn
                     simp at h
-                    obtain ⟨rfl, rfl, hs⟩ := h
-                    obtain ⟨rfl, rfl⟩ := hs
-                    have h1 := ih _ _ _ _ hk
-                    have h2 := ih _ _ _ _ hn
+                    obtain ⟨rfl, rfl, _⟩ := h
+                    have h1 := ih _ _ _ _ _ hk
+                    have h2 := ih _ _ _ _ _ hn
                     simp [flatten, ← h1, ← h2]
             · simp at h
           · -- single-line IF
             split at h
             · split at h
               · simp at h
-                obtain ⟨rfl, rfl⟩ := h
+                obtain ⟨rfl, rfl, _⟩ := h
                 simp [flatten]
               · split at h
                 · simp at h
                 · rename_i nx rest2 s2 hn
                   simp at h
-                  obtain ⟨rfl, rfl, rfl⟩ := h
-                  have h2 := ih _ _ _ _ hn
+                  obtain ⟨rfl, rfl, _⟩ := h
+                  have h2 := ih _ _ _ _ _ hn
                   simp [flatten, ← h2]
             · simp at h
           · -- simple statement
             split at h
             · split at h
               · simp at h
-                obtain ⟨rfl, rfl⟩ := h
+                obtain ⟨rfl, rfl, _⟩ := h
                 simp [flatten]
               · split at h
                 · simp at h
                 · rename_i nx rest2 s2 hn
                   simp at h
-                  obtain ⟨rfl, rfl, rfl⟩ := h
-                  have h2 := ih _ _ _ _ hn
+                  obtain ⟨rfl, rfl, _⟩ := h
+                  have h2 := ih _ _ _ _ _ hn
                   simp [flatten, ← h2]
             · simp at h
           · simp at h
@@ -149,8 +126,7 @@ theorem fill_top_rest (f : Nat) : ∀ (c : Ctx) (ls : List Line) (t : Forest) (r
     cases ls with
     | nil => simp [fill] at h; exact h.2.1
     | cons l ls =>
-      simp only [fill, endValid_top hc, hit_top hc, shared_top hc, Bool.false_eq_true, if_false,
-        Bool.false_or] at h
+      simp only [fill, endValid_top hc, hit_top hc, shared_top hc, Bool.false_eq_true, if_false] at h
       split at h
       · split at h
         · split at h
@@ -177,21 +153,87 @@ theorem fill_top_rest (f : Nat) : ∀ (c : Ctx) (ls : List Line) (t : Forest) (r
         · simp at h
       · simp at h
 
-/-- `nest1_print_stable` (C19, block structure): an accepted source without a shared DO label
-    is reproduced line for line by printing the tree, and nests to the same tree again. -/
-theorem nest1_print_stable (ls : List Line) (t : Forest) (h : nest1 ls = .ok (t, false)) :
-    flatten t = ls ∧ nest1 (flatten t) = .ok (t, false) := by
+/-- `nest1_print_stable` (C19, block structure), unconditional: every accepted source - shared
+    DO labels, blocks closed only by end of input included - is reproduced line for line by
+    printing the tree, and nests to the same tree (and the same put-back flag) again. -/
+theorem nest1_print_stable (ls : List Line) (t : Forest) (s : Bool) (h : nest1 ls = .ok (t, s)) :
+    flatten t = ls ∧ nest1 (flatten t) = .ok (t, s) := by
   have hl : flatten t = ls := by
     unfold nest1 at h
     split at h
     · simp at h
-    · rename_i t' rest s hf
+    · rename_i t' rest s' hf
       simp at h
       obtain ⟨rfl, rfl⟩ := h
       have hr := fill_top_rest _ _ _ _ _ _ rfl hf
       subst hr
-      simpa using fill_input _ _ _ _ _ hf
+      simpa using fill_input _ _ _ _ _ _ hf
   exact ⟨hl, by rw [hl]; exact h⟩
+
+/-- the fuel of `nest1` is never the reason for an error -/
+theorem fill_fuel (f : Nat) : ∀ (c : Ctx) (ls : List Line), ls.length < f →
+    fill f c ls ≠ .error .fuel := by
+  induction f with
+  | zero => intro c ls h; omega
+  | succ f ih =>
+    intro c ls hlen
+    cases ls with
+    | nil => simp [fill]
+    | cons l ls =>
+      have hl : ls.length < f := by simp at hlen; omega
+      have hrest : ∀ c' t r s, fill f c' ls = .ok (t, r, s) → r.length < f := by
+        intro c' t r s h
+        have := congrArg List.length (fill_input _ _ _ _ _ _ h)
+        simp at this; omega
+      simp only [fill]
+      split
+      · simp
+      · split
+        · simp
+        · split
+          · split
+            · split
+              · rename_i e he
+                intro h; simp at h; subst h; exact ih _ _ hl he
+              · rename_i kids rest s1 hk
+                split
+                · simp
+                · split
+                  · rename_i e he
+                    intro h; simp at h; subst h
+                    exact ih _ _ (hrest _ _ _ _ hk) he
+                  · simp
+            · simp
+          · split
+            · split
+              · simp
+              · split
+                · rename_i e he
+                  intro h; simp at h; subst h; exact ih _ _ hl he
+                · simp
+            · simp
+          · split
+            · split
+              · simp
+              · split
+                · rename_i e he
+                  intro h; simp at h; subst h; exact ih _ _ hl he
+                · simp
+            · simp
+          · simp
+
+theorem fuelFor_gt (ls : List Line) : ls.length < fuelFor ls := by
+  unfold fuelFor
+  have : ls.length + 1 ≤ (ls.length + 1) * (ls.length + 2) := Nat.le_mul_of_pos_right _ (by omega)
+  omega
+
+theorem nest1_fuel (ls : List Line) : nest1 ls ≠ .error .fuel := by
+  unfold nest1
+  split
+  · rename_i e he
+    intro h; simp at h; subst h
+    exact fill_fuel _ _ _ (fuelFor_gt ls) he
+  · simp
 
 /-! ### nesting the flattened forest gives the forest back -/
 
@@ -219,7 +261,7 @@ theorem fill_flatten : ∀ (t : Forest) (f : Nat) (c : Ctx) (rest : List Line),
     | succ f =>
       simp only [wf, Bool.and_eq_true, Bool.not_eq_true'] at hw
       obtain ⟨hsh, hw⟩ := hw
-      simp only [flatten, List.cons_append, fill, hsh, Bool.false_eq_true, if_false, Bool.false_or]
+      simp only [flatten, List.cons_append, fill, hsh, Bool.false_eq_true, if_false]
       by_cases he : endValid c l = true
       · simp only [he, if_true] at hw ⊢
         rw [isNil_eq hw]; simp [flatten]
@@ -242,7 +284,7 @@ theorem fill_flatten : ∀ (t : Forest) (f : Nat) (c : Ctx) (rest : List Line),
       simp only [wf, Bool.and_eq_true, Bool.not_eq_true', beq_iff_eq] at hw
       obtain ⟨⟨⟨⟨hsh, he⟩, hb⟩, ha⟩, hw⟩ := hw
       simp only [flatten, List.cons_append, fill, hsh, he, hb, ha, Bool.false_eq_true, if_false,
-        if_true, Bool.false_or]
+        if_true]
       by_cases hh : hit c l = true
       · simp only [hh, if_true] at hw ⊢
         rw [isNil_eq hw]; simp [flatten]
@@ -257,7 +299,7 @@ theorem fill_flatten : ∀ (t : Forest) (f : Nat) (c : Ctx) (rest : List Line),
       obtain ⟨⟨⟨hsh, he⟩, hm⟩, hw⟩ := hw
       simp only [Forest.size] at hf
       simp only [flatten, List.cons_append, fill, hsh, he, Bool.false_eq_true, if_false,
-        Bool.false_or, List.append_assoc]
+        List.append_assoc]
       split at hm
       · rename_i k name el hb
         simp only [Bool.and_eq_true] at hm
@@ -272,11 +314,6 @@ theorem fill_flatten : ∀ (t : Forest) (f : Nat) (c : Ctx) (rest : List Line),
           rw [ihn f c rest hw hr (by omega)]
           simp
       · simp at hm
-
-theorem fuelFor_gt (ls : List Line) : ls.length < fuelFor ls := by
-  unfold fuelFor
-  have : ls.length + 1 ≤ (ls.length + 1) * (ls.length + 2) := Nat.le_mul_of_pos_right _ (by omega)
-  omega
 
 /-- `nest1_flatten`: for every well-ended forest (every depth, every mix of block kinds),
     nesting its flattened statement list gives back the forest. -/
@@ -330,19 +367,50 @@ def sharedSrc : List Line :=
   [ln 1 (.opn .do_ [] (some 10)), ln 2 (.opn .do_ [] (some 10)), ln 3 (.smp .assign),
    ln 4 (.smp .exec) (some 10)]
 
-/-- C19 defect of the real algorithm (`Do.process_subitem` puts the shared terminal line back
-    *and* adds it): the tree of `do 10 / do 10 / x=1 / 10 continue` prints the CONTINUE
-    twice, so `nest1_print_stable` without its side condition is false. -/
 def treeOf (ls : List Line) : Forest :=
   match nest1 ls with
   | .ok (t, _) => t
   | .error _ => .nil
 
-theorem shared_label_dup_witness :
-    ∃ t, nest1 sharedSrc = .ok (t, true) ∧ flatten t ≠ sharedSrc
+def treeOfLegacy (ls : List Line) : Forest :=
+  match nest1Legacy ls with
+  | .ok (t, _) => t
+  | .error _ => .nil
+
+/-- repaired behaviour (HEAD): `do 10 / do 10 / x=1 / 10 continue` - the inner loop holds
+    `x=1` only, the CONTINUE is handed to the outer loop (flag = put-back happened), and the
+    tree prints the four lines again. -/
+example : nest1 sharedSrc =
+    .ok (.blk (ln 1 (.opn .do_ [] (some 10)))
+          (.blk (ln 2 (.opn .do_ [] (some 10))) (.leaf (ln 3 (.smp .assign)) .nil)
+            (.leaf (ln 4 (.smp .exec) (some 10)) .nil))
+          .nil, true) := by decide
+example : flatten (treeOf sharedSrc) = sharedSrc ∧
+    nest1 (flatten (treeOf sharedSrc)) = .ok (treeOf sharedSrc, true) :=
+  nest1_print_stable sharedSrc _ true (by decide)
+
+/-- three loops on one label, the terminal line closes all of them -/
+example : nest1 (ln 0 (.opn .do_ [] (some 10)) :: sharedSrc) =
+    .ok (.blk (ln 0 (.opn .do_ [] (some 10)))
+          (.blk (ln 1 (.opn .do_ [] (some 10)))
+            (.blk (ln 2 (.opn .do_ [] (some 10))) (.leaf (ln 3 (.smp .assign)) .nil) .nil)
+            (.leaf (ln 4 (.smp .exec) (some 10)) .nil))
+          .nil, true) := by decide
+
+/-- the put-back flag really occurs with `false` too (non-vacuity of both values) -/
+example : ∃ t, nest1 (flatten exForest) = .ok (t, false) := ⟨exForest, by decide⟩
+
+/-- C19 defect of the algorithm BEFORE the fix (`fillLegacy`: `Do.process_subitem` put the
+    shared terminal line back *and* added it): the tree of `do 10 / do 10 / x=1 / 10 continue`
+    printed the CONTINUE twice, and three times after the next round trip.  The statement of
+    `nest1_print_stable` is false for `nest1Legacy`. -/
+theorem legacy_shared_label_dup_witness :
+    ∃ t, nest1Legacy sharedSrc = .ok (t, true) ∧ flatten t ≠ sharedSrc
       ∧ (flatten t).length = sharedSrc.length + 1
-      ∧ ∃ t2, nest1 (flatten t) = .ok (t2, true) ∧ (flatten t2).length = sharedSrc.length + 2 :=
-  ⟨treeOf sharedSrc, by decide, by decide, by decide,
-    treeOf (flatten (treeOf sharedSrc)), by decide, by decide⟩
+      ∧ ∃ t2, nest1Legacy (flatten t) = .ok (t2, true)
+          ∧ (flatten t2).length = sharedSrc.length + 2 :=
+  ⟨treeOfLegacy sharedSrc, by decide, by decide, by decide,
+    treeOfLegacy (flatten (treeOfLegacy sharedSrc)), by decide, by decide⟩
 
 end Fp.One
+
